@@ -1,79 +1,79 @@
 /- REGENERATED from /repo on every run by /verif/harness/cmd/extract — do not edit. -/
 namespace Ibx.Gen.Shutdown
 
-/-- position of wg.Add(1) relative to the go statement of smtp.serve — Add before go: 1, Add inside goroutine: 1, deferred Done: 2, wg calls elsewhere: 1 -/
+/-- where <WaitGroup field>.Add(1) sits relative to the go statement of the accept loop (beforeSpawn | inSessionGoroutine | both | unknown) — Add before go: 1, Add inside goroutine: 1, deferred Done: 2, WaitGroup calls in other functions: 0 -/
 def smtp_wgAdd : String := "both"
 
-/-- is the accept loop itself counted in the WaitGroup (Add in Start, deferred Done in serve) -/
+/-- is the accept loop itself counted: one <WaitGroup>.Add in Start on the same path as (and before) the go statement, one unconditional deferred Done in the accept-loop function, no other WaitGroup call in Start (none = anything else) -/
 def smtp_serveCounted : Option Bool := some true
 
-/-- startSession's deferred function closes the connection, then calls wg.Done() -/
+/-- the session function closes its net.Conn parameter (or a once-assigned copy of it) in a deferred function, unconditionally and before the <WaitGroup>.Done() of that function -/
 def smtp_closeBeforeDone : Bool := true
 
-/-- Start waits for ctx.Done() and then closes the listener -/
+/-- Start receives from <context.Context parameter>.Done() as a statement and then, on the same path, calls Close() on the field Accept() is called on -/
 def smtp_startClosesListenerAfterDone : Bool := true
 
-/-- serve returns when Accept fails and ctx.Done() is readable -/
+/-- the accept loop returns inside a select case receiving from <context.Context parameter>.Done() -/
 def smtp_serveReturnsOnDone : Bool := true
 
-/-- Drain() = s.wg.Wait() (plus logging) -/
+/-- Drain's only blocking operation is one <WaitGroup field>.Wait(); no loop, no goroutine -/
 def smtp_drainIsWait : Bool := true
 
-/-- pkg/server/smtp/handler.go contains an identifier ctx/context/Context or imports "context" -/
+/-- the session function takes a context.Context, or is started with an argument mentioning the context.Context parameter, or the file declaring it imports "context" / contains an identifier ctx, context or Context -/
 def smtp_handlerMentionsCtx : Bool := false
 
-/-- position of wg.Add(1) relative to the go statement of pop3.serve — Add before go: 1, Add inside goroutine: 0, deferred Done: 1, wg calls elsewhere: 1 -/
+/-- where <WaitGroup field>.Add(1) sits relative to the go statement of the accept loop (beforeSpawn | inSessionGoroutine | both | unknown) — Add before go: 1, Add inside goroutine: 0, deferred Done: 1, WaitGroup calls in other functions: 0 -/
 def pop3_wgAdd : String := "beforeSpawn"
 
-/-- is the accept loop itself counted in the WaitGroup (Add in Start, deferred Done in serve) -/
+/-- is the accept loop itself counted: one <WaitGroup>.Add in Start on the same path as (and before) the go statement, one unconditional deferred Done in the accept-loop function, no other WaitGroup call in Start (none = anything else) -/
 def pop3_serveCounted : Option Bool := some true
 
-/-- startSession's deferred function closes the connection, then calls wg.Done() -/
+/-- the session function closes its net.Conn parameter (or a once-assigned copy of it) in a deferred function, unconditionally and before the <WaitGroup>.Done() of that function -/
 def pop3_closeBeforeDone : Bool := true
 
-/-- Start waits for ctx.Done() and then closes the listener -/
+/-- Start receives from <context.Context parameter>.Done() as a statement and then, on the same path, calls Close() on the field Accept() is called on -/
 def pop3_startClosesListenerAfterDone : Bool := true
 
-/-- serve returns when Accept fails and ctx.Done() is readable -/
+/-- the accept loop returns inside a select case receiving from <context.Context parameter>.Done() -/
 def pop3_serveReturnsOnDone : Bool := true
 
-/-- Drain() = s.wg.Wait() (plus logging) -/
+/-- Drain's only blocking operation is one <WaitGroup field>.Wait(); no loop, no goroutine -/
 def pop3_drainIsWait : Bool := true
 
-/-- pkg/server/pop3/handler.go contains an identifier ctx/context/Context or imports "context" -/
+/-- the session function takes a context.Context, or is started with an argument mentioning the context.Context parameter, or the file declaring it imports "context" / contains an identifier ctx, context or Context -/
 def pop3_handlerMentionsCtx : Bool := false
 
-/-- what Hub.Start does in `case <-ctx.Done():` before returning -/
+/-- what Hub.Start does in the `<-ctx.Done()` case of its loop's select before leaving: closesOpChan = closes the field the other case receives operations from; closesDone = closes another channel field (the done channel); unknown -/
 def hub_onCancel : String := "closesDone"
 
-/-- number of close(….opChan) calls in hub.go -/
+/-- close(<operation channel field>) calls in package msghub (the field Hub.Start receives operations from) -/
 def hub_closesOfOpChan : Nat := 0
 
-/-- sends on opChan that are not a case of a select that also has `<-hub.done` -/
+/-- sends on the operation channel that are not a case of a default-less select that also receives from the done channel -/
 def hub_bareSends : Nat := 0
 
-/-- enqueue is exactly `select { case hub.opChan <- op: case <-hub.done: }` -/
+/-- every function that sends on the operation channel has exactly one blocking operation: an unconditional two-case select { send on the operation channel; receive from the done channel } -/
 def hub_enqueueSelectsDone : Bool := true
 
-/-- Sync enqueues through enqueue and then waits in a select that has `<-hub.done` -/
+/-- Sync hands its operation to a producer function once and then waits in one default-less select that also receives from the done channel; it has no other blocking operation -/
 def hub_syncSelectsDone : Bool := true
 
-/-- select statements in RetentionScanner.Start and DoScan -/
+/-- select statements in RetentionScanner.Start and DoScan (visitor callback and unexported helpers followed) -/
 def ret_selects : Nat := 3
 
-/-- … of which have a `case <-ctx.Done():` -/
+/-- … of which have a case receiving from <context.Context parameter>.Done() -/
 def ret_selectsWithDone : Nat := 3
 
-/-- channel receives/sends outside a select, time.Sleep, Wait/Join calls in Start and DoScan -/
+/-- channel receives / sends outside a select, time.Sleep, Wait / Join / Lock calls in Start and DoScan (999: functions not found or control flow not understood) -/
 def ret_blockingOutsideSelect : Nat := 0
 
-/-- last statement of each `case <-ctx.Done():` branch, in source order (Start, then DoScan) -/
-def ret_doneBranches : List String := ["break retentionLoop", "break retentionLoop", "return false"]
+/-- what each ctx.Done() case does, logging aside, in source order (Start, then DoScan): breakLoop = break labelled with Start's outermost loop | returnFalse | return | fallsThrough | breakSelect | other -/
+def ret_doneBranches : List String := ["breakLoop", "breakLoop", "returnFalse"]
 
-/-- close(rs.retentionShutdown) calls in Start (disabled path + end of loop) -/
+/-- close(<channel field Join receives from>) calls in Start -/
 def ret_closesShutdown : Nat := 2
 
-/-- Join blocks on `<-rs.retentionShutdown` only -/
+/-- Join's only blocking operation is a receive from a scanner field, and Start closes that very field on the disabled path (before returning) and after its loop -/
 def ret_joinWaitsShutdown : Bool := true
 
 end Ibx.Gen.Shutdown
